@@ -276,7 +276,7 @@ Proof.
   repeat (split; [vm_compute; reflexivity|]).
   split.
   - assert (exit_code (compose_in (world_of_ccase ok_case) (flags1 sw_default None)) = 0) as E by (vm_compute; reflexivity).
-    apply exit_zero_iff_pipeline_ok in E; [|intros dir ov ov' keys H; reflexivity].
+    apply exit_zero_iff_pipeline_ok in E; [|intros dir ov ov' keys Hx; reflexivity].
     destruct E as [b [P _]]. now exists b.
   - repeat split; vm_compute; reflexivity.
 Qed.
